@@ -1,4 +1,5 @@
 import Properties.C17
+import Properties.Full
 #print axioms Hive.C17.runInv
 #print axioms Hive.C17.reachable
 #print axioms Hive.C17.initial
@@ -7,3 +8,4 @@ import Properties.C17
 #print axioms Hive.C17.conv_initial
 #print axioms Hive.C17.run_pairs_waiting
 #print axioms Hive.C17.dispatcher_instructions_ok
+#print axioms Hive.Full.C17
